@@ -361,6 +361,9 @@ func (s *Sem) holds(k Conj, p Prim, depth int, resolve func(ssa.Value) ssa.Value
 	return false
 }
 
+// SaturateBool is saturateBool for rules that read the facts of a conjunction themselves.
+func (s *Sem) SaturateBool(k Conj) Conj { return s.saturateBool(k) }
+
 // saturateBool: where a merged boolean is known (true or false) on this path and the path also says which
 // operand it is (the provenance fact phi == operand), the operand has that truth value too - and when the operand
 // is a comparison, so have its comparison facts.
